@@ -60,6 +60,13 @@ pub const PROGRAMS: &[(&str, &str)] = &[
     ("heredoc-in-cmdsub", "x=$(vcat <<EOF\nbody\nEOF\n)\necho \"$x\"\n"),
     ("herestring-dq-multiline", "vcat <<<\"a\nb\"\necho after\n"),
     ("sq-in-dq-multiline", "echo \"it's\nfine\"\necho after\n"),
+    // a here-document after each construct that puts the tokenizer into another mode
+    ("legacy-arith-then-heredoc", "echo $[1+2]\nvcat <<EOF\nbody $[2+3]\nEOF\necho after\n"),
+    ("arith-then-heredoc", "echo $((1<<2))\nvcat <<EOF\nbody\nEOF\necho after\n"),
+    ("arith-cmd-then-heredoc", "((x = 1 << 2))\nvcat <<EOF\nbody $x\nEOF\n"),
+    ("arith-for-then-heredoc", "for ((i=0; i<1; i++)); do :; done\nvcat <<-EOF\n\tbody\n\tEOF\n"),
+    ("nested-subshell-pipeline-then-heredoc", "( (echo a; echo b) | vcat )\nvcat <<EOF\nbody\nEOF\n"),
+    ("cond-then-heredoc", "[[ a < b ]]\nvcat <<EOF\nbody\nEOF\n"),
     ("comment-with-quote", "echo a # don't\necho b\n"),
     ("semicolon-newline-list", "echo a;\necho b\n"),
     ("amp-newline", "vtrue &\nwait\necho b\n"),
